@@ -2,6 +2,7 @@
 
 use std::error::Error;
 use std::fmt;
+use std::ops::Range;
 
 use fancy_regex::Regex;
 use unicode_categories::UnicodeCategories;
@@ -176,6 +177,15 @@ impl Normalizer for Bert {
     }
 }
 
+/// Extend `offsets` with an entry for each byte of `text[range]`, which is the
+/// offset of the start of the character in `text` that the byte belongs to.
+fn extend_with_char_offsets(offsets: &mut Vec<usize>, text: &str, range: Range<usize>) {
+    let start = range.start;
+    for (offset, ch) in text[range].char_indices() {
+        offsets.extend(std::iter::repeat_n(start + offset, ch.len_utf8()));
+    }
+}
+
 /// Replaces occurrences of a pattern with a given string.
 #[derive(Clone, Debug)]
 pub struct Replace {
@@ -207,7 +217,7 @@ impl Normalizer for Replace {
 
             let before_match = &text[last_match_end..match_.range().start];
             normalized.push_str(before_match);
-            offsets.extend(last_match_end..match_.range().start);
+            extend_with_char_offsets(&mut offsets, text, last_match_end..match_.range().start);
 
             normalized.push_str(&self.content);
             offsets.extend(std::iter::repeat_n(
@@ -219,7 +229,7 @@ impl Normalizer for Replace {
         }
 
         normalized.push_str(&text[last_match_end..]);
-        offsets.extend(last_match_end..text.len());
+        extend_with_char_offsets(&mut offsets, text, last_match_end..text.len());
 
         Ok((normalized, offsets))
     }
@@ -240,7 +250,8 @@ impl Sequence {
 impl Normalizer for Sequence {
     fn normalize(&self, text: &str) -> Result<(String, Vec<usize>), NormalizeError> {
         let mut normalized = text.to_string();
-        let mut offsets: Vec<usize> = (0..text.len()).collect();
+        let mut offsets = Vec::with_capacity(text.len());
+        extend_with_char_offsets(&mut offsets, text, 0..text.len());
 
         for normalizer in &self.normalizers {
             let (next_normalized, mut next_offsets) = normalizer.normalize(&normalized)?;
@@ -634,6 +645,29 @@ mod tests {
         let (normalized, offsets) = seq.normalize("İ").unwrap();
         assert_eq!(normalized, "_i_\u{307}_.");
         assert_eq!(offsets, [0, 0, 0, 0, 0, 2, 2]);
+    }
+
+    #[test]
+    fn test_replace_and_sequence_char_offsets() {
+        // Every byte of a multi-byte char that is copied from the input maps to
+        // the start of the char.
+        let input = "aé  €b";
+        let expected_offsets = [0, 1, 1, 3, 5, 5, 5, 8];
+
+        let replace = Replace::new(r"\s+", " ".to_string()).unwrap();
+        let (normalized, offsets) = replace.normalize(input).unwrap();
+        assert_eq!(normalized, "aé €b");
+        assert_eq!(offsets, expected_offsets);
+
+        let seq = Sequence::from_vec([replace_normalizer(r"\s+", " ")].into());
+        let (normalized, offsets) = seq.normalize(input).unwrap();
+        assert_eq!(normalized, "aé €b");
+        assert_eq!(offsets, expected_offsets);
+
+        let seq = Sequence::from_vec(Vec::new());
+        let (normalized, offsets) = seq.normalize("é€").unwrap();
+        assert_eq!(normalized, "é€");
+        assert_eq!(offsets, [0, 0, 2, 2, 2]);
     }
 
     #[test]
